@@ -571,3 +571,15 @@ ROUND8 = {
 }
 for _k, _v in ROUND8.items():
     CHECKS[_k]["rule"] += " Round 8: " + _v
+
+# Round 9 (review of the repairs, DESIGN 8.11): what each rule gained.
+ROUND9 = {
+    "C03": "regress: a peer that stalls inside a well-formed header block until the read timeout is not answered 400.",
+    "C10": "regress: a 101 answer whose upgrade option is spelled four ways (never pooled).",
+    "C11": "body-or-error also asks the URL helper (client.Get) after each exchange.",
+    "C15": "source tags spelled \"-\"; trailing fields moved into an untagged embedded struct; an unexported sibling whose name equals a json name ignoring case, with body keys in another case (json names that differ only in case are kept on one embedding level).",
+    "C19": "unit finish-after-buffers-released: buffered mode, bodies of 100 B..70 KB and multipart bodies whose form the handler asks for; a whole exchange of another connection runs inside the scripted connection's first Write; the tracer's Finish must see the handled body.",
+    "C20": "containers: nil pointers to slices and maps beside walked ones, a ***T member with a rule of its own; binder-nested: a struct as the key of a map inside a slice / a map.",
+}
+for _k, _v in ROUND9.items():
+    CHECKS[_k]["rule"] += " Round 9: " + _v
